@@ -1,0 +1,38 @@
+//go:build verif
+
+package kgo
+
+// Verification contracts (comments only), read by /verif/govc. Compiled only with -tags verif; no code.
+
+// ---- C06 (continued): a v2 record becomes a kgo Record with the key, value, headers, offset and timestamp the
+// log format gives it ----
+// TimestampType: bit 7 (set by the client for pre-0.10 messages) gives -1; otherwise bit 3 of the batch attributes
+// (0 CreateTime, 1 LogAppendTime).
+//@ func (a RecordAttrs) TimestampType() (t int8)
+//@   mode bv
+//@   prop C06
+//@   nopanic
+//@   pure
+//@   ensures (a.attrs & 0x80 != 0 ==> t == -1) && ((a.attrs & 0x80 == 0 && a.attrs & 0x08 != 0) ==> t == 1) && ((a.attrs & 0x80 == 0 && a.attrs & 0x08 == 0) ==> t == 0)
+
+//@ func timeFromMillis(millis int64) (t time.Time)
+//@   prop C06
+//@   pure
+
+// recordToRecord: key, value, topic, partition, producer and leader epoch are copied unchanged; the offset is the
+// batch's first offset plus the record's delta (or -1 for the internal "unknown" marker); the attributes are the
+// low byte of the batch attributes; the timestamp is first timestamp + delta for CreateTime batches and the
+// batch's max timestamp - with NO delta - for every other timestamp type; (that every header is copied in order is not proved).
+//@ func recordToRecord(topic string, partition int32, batch *kmsg.RecordBatch, krecord *kmsg.Record, r *Record, hslab *[]RecordHeader)
+//@   prop C06
+//@   site call TimestampType#0 assert [type-of-the-batch-attributes] arg0.attrs == uint8(batch.Attributes)
+//@   site call timeFromMillis#0 assert [create-time-is-first-plus-delta] $TimestampType0 == 0 && arg0 == batch.FirstTimestamp + krecord.TimestampDelta64
+//@   site call timeFromMillis#1 assert [log-append-time-is-the-batch-max] $TimestampType0 != 0 && arg0 == batch.MaxTimestamp
+//@   site store Timestamp#0 assert [stores-the-computed-time] val == $timeFromMillis0
+//@   site store Timestamp#1 assert [stores-the-computed-time] val == $timeFromMillis1
+//@   site store Offset#0 assert [unknown-offset-marker] batch.FirstOffset == -1 && val == -1
+//@   site store Offset#1 assert [offset-is-first-plus-delta] batch.FirstOffset != -1 && val == batch.FirstOffset + int64(krecord.OffsetDelta)
+//@   ensures [payload-copied] r.Key == krecord.Key && r.Value == krecord.Value && r.Topic == topic && r.Partition == partition
+//@   ensures [batch-fields-copied] r.ProducerID == batch.ProducerID && r.ProducerEpoch == batch.ProducerEpoch && r.LeaderEpoch == batch.PartitionLeaderEpoch && r.Attrs.attrs == uint8(batch.Attributes)
+//@   ensures [a-timestamp-is-set] reached($timeFromMillis0) || reached($timeFromMillis1)
+//   (the header copy loop is not under contract: its frame needs the slab to be disjoint from the decoded record)
